@@ -1334,6 +1334,63 @@ def fam_bigtemplate_small_sets(rng, tier="quick"):
     return out
 
 
+def fam_forget(rng, n):
+    """C07 / C06: the CALLER removes a template id from the public cache maps (template expiry: `parser.v9_parser.templates.remove(&id)`,
+    op `forget`) after data for it was decoded; the id is then absent from the cache, so data for it must NOT be decoded (V9: error,
+    IPFIX: set omitted), the caches stay as the caller left them, and after the template is received again the same bytes decode."""
+    out = []
+    for _ in range(n):
+        proto = rng.choice([9, 10])
+        tid = rng.choice([256, 257, 300, 999])
+        kind = rng.choice(["tpl", "tpl", "opt"])
+        if proto == 9:
+            if kind == "tpl":
+                t = v9_template(rng, tid, lossless=True)
+                tset = {"templates": {"ts": [t], "pad": ""}}
+                dset = {"data": {"id": tid, "recs": [v9_record(rng, t) for _ in range(rng.randrange(1, 4))], "pad": ""}}
+            else:
+                tset = {"optTemplates": {"ts": [{"id": tid, "scopeLen": 4, "optLen": 4, "scope": [{"typ": 1, "len": 4}], "opts": [{"typ": 1, "len": 4}]}], "pad": ""}}
+                dset = {"raw": None}
+            def pk(sets, k):
+                return {"v9": {"m": {"count": len(sets), "sysUpTime": k, "unixSecs": k, "seq": k, "sourceId": 1, "sets": sets}}}
+            if kind == "opt":
+                body = bytes(rng.randrange(256) for _ in range(8))
+                def datamsg(k):
+                    return {"raw": {"b": hx(b"\x00\x09\x00\x01" + bytes(16) + tid.to_bytes(2, "big") + (12).to_bytes(2, "big") + body)}}
+            else:
+                def datamsg(k):
+                    return pk([dset], k)
+        else:
+            t = ip_template(rng, tid, lossless=True, varlen=False, enterprise=False)
+            if kind == "opt":
+                t["scopeCount"] = 1
+                tset = {"optTemplates": {"ts": [t], "pad": ""}}
+            else:
+                tset = {"templates": {"ts": [t], "pad": ""}}
+            dset = {"data": {"id": tid, "recs": [ip_record(rng, t["fields"]) for _ in range(rng.randrange(1, 4))], "pad": ""}}
+            def pk(sets, k):
+                return {"ipfix": {"m": {"exportTime": k, "seq": k, "odid": 1, "sets": sets}}}
+            def datamsg(k):
+                return pk([dset], k)
+        want = ["export", "common", "json"]
+        ops = [op_new(0)]
+        def add(m, w=want):
+            o = op_parse(0, msgs=[m], want=list(w)); o["nospec"] = True; ops.append(o)
+        add(pk([tset], 1), [])
+        for k in range(rng.randrange(1, 3)):
+            add(datamsg(2 + k))                       # decoded: whatever the code derives lazily from the template is now built
+        ops.append({"op": "forget", "p": 0, "proto": proto, "id": tid})
+        if rng.random() < 0.5:
+            add(pk([tset], 5) if False else msg_v5(rng, 1), [])     # unrelated traffic in between
+        add(datamsg(6))                               # the id is absent from the cache: no records
+        ops[-1]["unknown_id"] = tid; ops[-1]["unknown_proto"] = proto
+        if rng.random() < 0.7:
+            add(pk([tset], 7), [])                    # received again
+            add(datamsg(8))                           # decodes again
+        out.append(("forget-%d-%s" % (proto, kind), ops))
+    return out
+
+
 def fam_isolation(rng, n):
     """C06: two parser instances fed interleaved histories with colliding template ids behave like
     two parsers fed their histories alone; fixed-format packets / disallowed versions never touch the caches"""
@@ -2258,7 +2315,7 @@ def api_noise_scenarios(rng, scens, cap=150):
     out = []
     std = {"op", "p", "msgs", "hexs", "hex", "want", "nospec"}
     plain = [(k, ops) for k, ops in scens
-             if not any(o["op"].startswith("assert_") or o["op"] in ("flat", "fixed_roundtrip", "allowed") for o in ops)
+             if not any(o["op"].startswith("assert_") or o["op"] in ("flat", "fixed_roundtrip", "allowed", "forget") for o in ops)
              and not any(o["op"] == "parse" and (set(o) - std) for o in ops)
              and all(o["op"] in ("new", "parse") for o in ops)]
     multi = [(k, ops) for k, ops in plain if sum(1 for o in ops if o["op"] == "parse") >= 2]
